@@ -20,7 +20,7 @@ from vf.core import CaseResult, Ctx, Violation, hyp_run, exc_sig
 
 PROP_ID = 'C37'
 LEVEL = 'exploration'
-BUDGET = {'quick': 2400, 'thorough': 100000}
+BUDGET = {'quick': 1600, 'thorough': 100000}
 RULE = (
     'Hypothesis draws 1-4 "KEY=<python literal text>" pairs from a literal '
     'grammar: ints (decimal, signed, hex/octal/binary, underscores, 30-5000 '
@@ -52,6 +52,10 @@ ASSUMPTIONS = [
     'must therefore give the values of the first.',
     'Suspicion DESIGN 8 (repr(inf) is not a literal) confirmed: see '
     'known_findings C37:restore-fails:non-finite-float.',
+    'Sensitivity (tools/mut.sh, quick): detected: str() instead of repr() '
+    'in put_workflow_template_vars, json.loads instead of literal_eval in '
+    'eval_var, command-line precedence test removed in '
+    'Scheduler._load_template_vars.',
 ]
 MANIFEST = {'engine': 'P', 'technique': 'Hypothesis literal grammar through real DAO write + restart callback'}
 
